@@ -432,7 +432,58 @@ func workerCompile(kind int, req childReq) (obs Obs) {
 	return observe(kind, slice, roots)
 }
 
+// canaryMain evaluates a program in a Local session of this (child) process.
+// The Local executor runs tasks on goroutines of its own: if the code under
+// test is broken badly enough to panic there, the process dies, and it should
+// not be the driver.
+func canaryMain() {
+	var req canaryReq
+	if err := gob.NewDecoder(os.Stdin).Decode(&req); err != nil {
+		os.Exit(3)
+	}
+	if _, err := session(req.MC).Run(context.Background(), f0, req.P); err != nil {
+		os.Exit(4)
+	}
+	os.Exit(0)
+}
+
+type canaryReq struct {
+	MC bool
+	P  Prog
+}
+
+var canaries = map[string]bool{}
+
+// canary reports whether the program can be evaluated without killing the process.
+func canary(mc bool, p Prog) bool {
+	key := fmt.Sprint(mc, p.Ops)
+	if ok, seen := canaries[key]; seen {
+		return ok
+	}
+	ok := func() bool {
+		self, err := os.Executable()
+		if err != nil {
+			return false
+		}
+		var in bytes.Buffer
+		if err := gob.NewEncoder(&in).Encode(canaryReq{mc, p}); err != nil {
+			return false
+		}
+		ctx, cancel := context.WithTimeout(context.Background(), 60*time.Second)
+		defer cancel()
+		cmd := osexec.CommandContext(ctx, self)
+		cmd.Env = append(os.Environ(), "VERIF_C08_CHILD=canary")
+		cmd.Stdin = &in
+		return cmd.Run() == nil
+	}()
+	canaries[key] = ok
+	return ok
+}
+
 func childMain() {
+	if os.Getenv("VERIF_C08_CHILD") == "canary" {
+		canaryMain()
+	}
 	var req childReq
 	if err := gob.NewDecoder(os.Stdin).Decode(&req); err != nil {
 		fmt.Fprintln(os.Stderr, "c08 child:", err)
@@ -471,7 +522,23 @@ func runChild(req childReq) Obs {
 
 // ---------------------------------------------------------------- one case
 
-var sess *exec.Session
+// Real Local sessions, one per setting of the MachineCombiners option (a
+// session compiles all its invocations with the same setting).
+var sessions = map[bool]*exec.Session{}
+
+func session(mc bool) *exec.Session {
+	if s, ok := sessions[mc]; ok {
+		return s
+	}
+	var s *exec.Session
+	if mc {
+		s = exec.Start(exec.Local, exec.MachineCombiners)
+	} else {
+		s = exec.Start(exec.Local)
+	}
+	sessions[mc] = s
+	return s
+}
 
 func setCache(dir string, ops []Op, worker bool) {
 	for i, op := range ops {
@@ -556,7 +623,10 @@ func runCase(d Desc) (obs []Obs, inv uint64) {
 		p := Prog{Ops: ops, CacheDir: dir}
 		var r *exec.Result
 		if d.RunFirst {
-			r, err = sess.Run(ctx, f0, p)
+			if !canary(d.MC, p) {
+				return []Obs{errObs(0, 2, "evaluating a first program kills the process")}, 0
+			}
+			r, err = session(d.MC).Run(ctx, f0, p)
 			if err != nil {
 				panic(fmt.Sprintf("c08: first program failed to run: %v", err))
 			}
@@ -806,7 +876,7 @@ func genOps(r *vf.Rand, n, nargs, cacheMode int) []Op {
 			a := Op{K: "reshard", In: []int{base}, N: r.Intn(4)}
 			b := Op{K: []string{"reshard", "reduce", "reshuffle", "map"}[r.Intn(4)], In: []int{base}, N: r.Intn(4)}
 			ops = append(ops, a, b, Op{K: "cogroup", In: []int{len(ops), len(ops) + 1}})
-		case x == 4 && cacheMode > 0:
+		case (x == 4 || x == 5 || x == 6) && cacheMode > 0:
 			op := Op{K: []string{"cache", "cachepartial", "cachepartial"}[r.Intn(3)], In: []int{pickIn()}}
 			if r.Chance(1, 3) {
 				op.DC = []int{0, 1, 2, 3}
@@ -825,6 +895,10 @@ func genOps(r *vf.Rand, n, nargs, cacheMode int) []Op {
 				}
 			}
 			ops = append(ops, op)
+			if r.Chance(1, 2) { // pipeline something onto the cached slice
+				k := []string{"map", "filter", "head", "prefixed"}[r.Intn(4)]
+				ops = append(ops, Op{K: k, In: []int{len(ops) - 1}, N: r.Intn(4)})
+			}
 		default:
 			k := unary[r.Intn(len(unary))]
 			ops = append(ops, Op{K: k, In: []int{pickIn()}, N: r.Intn(4), Mat: r.Chance(1, 5)})
@@ -1004,17 +1078,32 @@ func main() {
 			descs = append(descs, genCase(root.Split(), i, opts.Tier == "thorough"))
 		}
 	}
-	sess = exec.Start(exec.Local)
-	defer sess.Shutdown()
+	defer func() {
+		for _, s := range sessions {
+			s.Shutdown()
+		}
+	}()
 	in := &interner{names: map[string]string{}}
 	children := 0
 	for _, d := range descs {
+		t0 := time.Now()
 		obs, inv := runCaseGuarded(d)
+		if dt := time.Since(t0); dt > 2*time.Second {
+			fmt.Fprintf(os.Stderr, "c08: case %d took %v\n", len(out.Cases), dt)
+		}
 		terms := make([]string, len(obs))
 		for i, o := range obs {
 			terms[i] = in.obsTerm(o)
 			if o.Kind == 3 {
 				children++
+			}
+		}
+		if os.Getenv("VERIF_C08_DEBUG") != "" {
+			for _, o := range obs {
+				fmt.Fprintf(os.Stderr, "kind %d err %d %s\n", o.Kind, o.Err, o.Msg)
+				for i, t := range o.Tasks {
+					fmt.Fprintf(os.Stderr, "  %d: %s writable=%v\n", i, taskTerm(t), t.EnvWritable)
+				}
 			}
 		}
 		kind, nontriv, sig := classify(d, obs)
